@@ -103,6 +103,24 @@ fn main() {
         let st = dfs::explore(&cfg, &*f);
         c.add_dfs(&name, &st);
     }
+    // Sound devices with many streams (single executions per count and transport).
+    {
+        let mut ev = 0u64;
+        let mut ok = 0u64;
+        for tk in [vlab::drivers::TKind::Model, vlab::drivers::TKind::Pci] {
+            for n in [1u32, 2, 63, 64, 65, 70, 127] {
+                let v = c20_sound::run_many_streams(tk, n);
+                ev += 1;
+                if v.is_empty() {
+                    ok += 1;
+                }
+                for (k, d) in v {
+                    c.add_violation(vlab::engine::Violation::new("C20", k, format!("sound device with {} streams on {}: {}", n, tk.name(), d)), "sound-many-streams", vlab::util::J::obj().set("kind", vlab::util::J::s("many-streams")).set("streams", vlab::util::J::i(n)).set("transport", vlab::util::J::s(tk.name())), vec![]);
+                }
+            }
+        }
+        c.add_sweep("sound-many-streams: devices with 1..127 PCM streams (the driver answers more with a clean panic: its response buffer is one page) on 2 transports; directions and capabilities of every stream id against what the device reported for that id", ev, ok, true, vlab::util::J::obj());
+    }
     // EDID sweeps.
     let total: u32 = if thorough { 1 << 24 } else { 1 << 18 };
     let threads = 16u32;
